@@ -62,7 +62,7 @@ def month_table(R, P):
                 out.append(ch)
         return "".join(out)
     built = {k: seq(ln) for k, ln in keys.items()}
-    bad = [k for k in keys if built[k] != k[2:] or shifts.get(k) != [0, 8, 16]]
+    bad = [k for k in keys if built[k] != k[2:] or shifts.get(k) not in ([0, 8, 16], [8, 16])]  # (the first character may be written without `<< 0`)
     R.check(len(keys) >= 14 and not bad, "MONTH-TABLE", "keys-built-from-own-name", "%s()" % ini.name, "each of the %d keys packs the three letters of its own abbreviation at bits 0, 8, 16" % len(keys),
             "keys %s are not built from their own three letters (%s)" % (bad, {k: built[k] for k in bad}))
     # lookup: comparison with s_<mon> returns its calendar index
@@ -83,6 +83,38 @@ def month_table(R, P):
         rets = [el for el in g.blocks[tb].elems if el["k"] == "ret"] if tb is not None else []
         if rets:
             got[names[0][2:]] = g.is_const(RU.uncast(g, rets[0]["a"][0]))
+    if not got:
+        # the same lookup as a table walk: a local array initialised {s_jan, ..., s_dec}, scanned upwards from 0, returning
+        # the position of the first element equal to the key
+        for b in g.blocks.values():
+            for el in b.elems:
+                if el["k"] == "decl":
+                    for v in el["vars"]:
+                        i_ = g.d(v.get("init")) if v.get("init") is not None else None
+                        if i_ is not None and i_["k"] == "init" and all((g.d(a) or {}).get("k") == "var" and g.d(a)["n"].startswith("s_") for a in i_["a"]):
+                            arr, order = v["n"], [g.d(a)["n"][2:] for a in i_["a"]]
+                            for b2 in g.blocks.values():
+                                c2 = RU.uncast(g, b2.cond) if b2.cond is not None else None
+                                if c2 is None or c2["k"] != "bin" or c2["op"] != "==":
+                                    continue
+                                ix = [x for x in c2["a"] if (RU.uncast(g, x) or {}).get("k") == "index"]
+                                kv = [x for x in c2["a"] if (RU.uncast(g, x) or {}).get("k") == "var" and RU.uncast(g, x)["n"] == "comp_val"]
+                                if len(ix) != 1 or len(kv) != 1:
+                                    continue
+                                ixn = RU.uncast(g, ix[0])
+                                base = RU.uncast(g, ixn["a"][0])
+                                while base is not None and base["k"] in ("decay", "cast"):
+                                    base = g.d(base["a"][0])
+                                iv = RU.uncast(g, ixn["a"][1])
+                                tb = b2.succ[0]
+                                rets = [x for x in g.blocks[tb].elems if x["k"] == "ret"] if tb is not None else []
+                                if base is not None and base["k"] == "var" and base["n"] == arr and iv is not None and iv["k"] == "var" and rets and g.show(RU.uncast(g, rets[0]["a"][0])) == iv["n"]:
+                                    # the index variable starts at 0 and is only incremented by one
+                                    init0 = [vv.get("init") for e2 in g.all_events() if e2.kind == "decl" for vv in e2.node["vars"] if vv["n"] == iv["n"]]
+                                    steps = [x["op"] for bb in g.blocks.values() for e3 in bb.elems for x in g.walk(e3) if x["k"] == "un" and x["op"] in ("pre++", "post++", "pre--", "post--") and (g.d(x["a"][0]) or {}).get("n") == iv["n"]]
+                                    asg = [1 for bb in g.blocks.values() for e3 in bb.elems for x in g.walk(e3) if x["k"] == "bin" and x["op"] in ("=", "+=", "-=") and (g.d(x["a"][0]) or {}).get("n") == iv["n"]]
+                                    if init0 and init0[0] is not None and g.is_const(RU.uncast(g, init0[0])) == 0 and steps and all(s_ in ("pre++", "post++") for s_ in steps) and not asg:
+                                        got = {m: k for k, m in enumerate(order)}
     want = {m: i for i, m in enumerate(MONTHS)}
     R.check(got == want, "MONTH-TABLE", "lookup-returns-calendar-index", "%s()" % g.name, "jan..dec map to 0..11", "the month lookup maps %s" % {k: v for k, v in got.items() if want.get(k) != v} if got else "no month comparisons found")
     fall = [r for r in g.returns() if g.is_const(RU.uncast(g, r.node["a"][0])) == -1]
@@ -284,9 +316,17 @@ def offsets(R, P):
     sub = None
     for b in g.blocks.values():
         for el in b.elems:
-            if el["k"] == "bin" and el["op"] in ("-=", "+=") and g.show(g.d(el["a"][0])) == "dt->timestamp":
-                sub = el
-    if not R.require(sub is not None and g.show(g.d(sub["a"][1])) == "seconds_offset", "the offset application to dt->timestamp not found"):
+            if el["k"] == "bin" and el["op"] in ("-=", "+=") and g.show(g.d(el["a"][1])) == "seconds_offset":
+                l_ = g.d(el["a"][0])
+                if g.show(l_) == "dt->timestamp":
+                    sub = el
+                elif l_ is not None and l_["k"] == "var" and l_.get("sc") == "local":
+                    # applied to a local that then becomes dt->timestamp (an expanded helper computes the instant)
+                    for b2 in g.blocks.values():
+                        for el2 in b2.elems:
+                            if el2["k"] == "bin" and el2["op"] == "=" and g.show(g.d(el2["a"][0])) == "dt->timestamp" and g.show(g.d(el2["a"][1]), alias=True) == l_["n"]:
+                                sub = el
+    if not R.require(sub is not None, "the offset application to dt->timestamp not found"):
         return
     R.check(sub["op"] == "-=", "OFFSET", "init_from_str:offset-subtracted", "%s:%d in %s()" % (FILE, sub["loc"][0], g.name), "the offset (east positive) is subtracted from the UTC conversion of the local fields",
             "the zone offset is added instead of subtracted: +hh:mm zones move the instant the wrong way")
@@ -301,7 +341,8 @@ def offsets(R, P):
     for st in sts.get(sub["id"], []):
         n_all += 1
         so = st.env.get("v:seconds_offset")
-        ts = [v for k, v in st.env.items() if k.endswith(")->timestamp")]
+        tsv = num.val(g.d(sub["a"][0]), st)
+        ts = [tsv] if tsv is not None else []
         lib = st.notes.get("libcalls", {})
         conv = [a for (c, a) in lib.values() if c in ("aws_timegm", "mktime")]
         which = [c for (c, a) in lib.values() if c in ("aws_timegm", "mktime")]
@@ -490,7 +531,14 @@ def units(R, P):
     if f is not None:
         r = f.returns()
         txt = f.show(r[0].node) if r else ""
-        R.check("+ (uint64_t)dt->milliseconds" in txt.replace("(unsigned long)", "(uint64_t)") or "dt->milliseconds" in txt and "+" in txt and txt.count("aws_timestamp_convert") == 1, "UNITS", "as_millis:adds-milliseconds", "%s()" % f.name, "milliseconds are added as they are")
+        okm = False
+        if r and r[0].node.get("a"):
+            top = RU.origin(f, r[0].node["a"][0], r[0])
+            if top is not None and top["k"] == "bin" and top["op"] == "+":
+                ops = [RU.origin(f, a_, r[0]) for a_ in top["a"]]
+                kinds = sorted(("conv" if (o_ is not None and o_["k"] == "call" and o_.get("callee") == "aws_timestamp_convert") else "ms" if (o_ is not None and o_["k"] == "member" and o_["f"] == "milliseconds") else "?") for o_ in ops)
+                okm = kinds == ["conv", "ms"]
+        R.check(okm, "UNITS", "as_millis:adds-milliseconds", "%s()" % f.name, "the result is the converted seconds plus the milliseconds field as it is (through whatever temporaries)", "milliseconds are added as they are")
     f = P.fn("aws_date_time_as_epoch_secs")
     if R.require(f is not None, "aws_date_time_as_epoch_secs not found"):
         txt = f.show(f.returns()[0].node)
